@@ -100,7 +100,7 @@ def gen_tree(ctx, n_random, gen=False):
         ops = ["g %d" % k, "s %d %d" % (k, v), "g %d" % k] + ["g %d" % x for x in nb] + ["d"]
         if gen:
             ops += ["b %d" % k, "g %d" % k, "g %d" % (k ^ 1), "s %d %d" % (k ^ 1, v), "b %d" % k, "g %d" % (k ^ 1),
-                    "s %d %d" % (k, v + 1), "g %d" % k, "d"]
+                    "s %d %d" % (k, v // 2 + 1), "g %d" % k, "d"]
         cases.append(tree_case(ops))
     # all 1024 keys in one tree, shuffled, then read back, overwritten, read back
     order = list(range(NK)); r.shuffle(order)
@@ -444,6 +444,8 @@ def oracle_sys(case, out):
             elif op == "g":
                 t, k = int(w[i + 1]), int(w[i + 2]); i += 3
                 exp = val[t].get(k, 0) if 0 <= k < NK else 0
+                if 0 <= k < NK and k not in live and r in (0, old[t].get(k, 0)):
+                    continue     # a deleted, not re-created index: the property says nothing (NULL or the old value)
                 if r != exp:
                     stale = (k in old[t] and r == old[t][k] and k not in val[t])
                     return ("thread %d reads %d under key %d; under this key it stored %s" %
@@ -527,6 +529,25 @@ def oracle_conc(case, out):
                 if v in held:
                     held.remove(v)
             at[t] = (lab, v)
+    # a run that came to its end: the free list and the cells marked live partition the 1024 indices, and the
+    # marked cells are exactly the keys still held
+    if msg is None and stats["corrupt"] == 0 and "|" in toks:
+        try:
+            tail = toks[len(toks) - 1 - toks[::-1].index("|") + 1:]
+            fr = [x for x in tail if x.startswith("free=")][0]
+            lv = [x for x in tail if x.startswith("live=")][0]
+            busy = any(a is not None for a in at) or any(nxt[t] < len(progs[t]) for t in range(T))
+            if not busy:
+                if "!" in fr:
+                    msg = "the key free list does not end in NULL: " + fr[-12:]
+                else:
+                    chain = expand_runs(fr[len("free="):]); marked = expand_runs(lv[len("live="):])
+                    if len(set(chain)) != len(chain) or set(chain) & set(marked) or len(chain) + len(marked) != NK:
+                        msg = "free list and live cells do not partition the 1024 indices (%d free, %d live)" % (len(chain), len(marked))
+                    elif sorted(marked) != sorted(held):
+                        msg = "cells marked live %s differ from the keys still held %s" % (sorted(marked)[:6], sorted(held)[:6])
+        except (IndexError, ValueError):
+            pass
     return msg, window, stats
 
 
@@ -640,7 +661,7 @@ def oracle_lib_full(out):
     return None
 
 
-def run_lib(ctx, libexe, args, timeout=120):
+def run_lib(ctx, libexe, args, timeout=60):
     rc, out = vlib.sh([libexe] + [str(a) for a in args], timeout=timeout,
                       env=dict(os.environ, MYTH_NUM_WORKERS="4"))
     return rc, out
@@ -709,6 +730,8 @@ def run(ctx):
     VARIANT["gen"], VARIANT["lock"] = gen, lock
     unit, libexe, drv = build(ctx, gen=gen, lock=lock)
     listed = {f["id"] for f in vlib.known_findings("C10")}
+    # test hook for the mutation experiments: behave as if these ids had been removed from known_findings.json
+    listed -= set(x for x in os.environ.get("C10_TEST_UNLISTED", "").split(",") if x)
     aba_present, stale_present, vline, aba_out, stale_out = probe(unit)
     q = not ctx.thorough
     cases = ["variant %d %d" % (int(gen), int(lock)), "consts"] + corpus_cases()
@@ -716,7 +739,7 @@ def run(ctx):
     cases += gen_keys(ctx, 150 if q else 2500)
     cases += gen_sys(ctx, 200 if q else 3000)
     cases += gen_conc(ctx, 400 if q else 6000)
-    impl, rc1, raw1 = vlib.run_lines([unit], cases, timeout=900)
+    impl, rc1, raw1 = vlib.run_lines([unit], cases, timeout=240 if q else 900)
     model, rc2, raw2 = vlib.run_lines([drv], cases, timeout=900)
     diffs = vlib.diff_lines(cases, impl, model)
 
@@ -726,7 +749,12 @@ def run(ctx):
     for i, c in enumerate(cases):
         k = c.split()[0]
         kinds[k] = kinds.get(k, 0) + 1
-        out = impl[i] if i < len(impl) else "<no output>"
+        if i >= len(impl) or (i == len(impl) - 1 and rc1 != 0 and len(impl) < len(cases)):
+            failing.append((c, (impl[i] if i < len(impl) else "")[-300:],
+                            "the implementation did not get past this case: harness exit code %d (crash, deadlock or "
+                            "timeout) after %d of %d cases" % (rc1, min(i, len(impl)), len(cases))))
+            break
+        out = impl[i]
         if k in ("consts", "variant"):
             continue
         msg, flag = oracle_unit(c, out)
